@@ -663,14 +663,14 @@ impl Out {
             self.count("inconclusive.skipped_after_watchdog_or_death");
             return false;
         }
-        self.event(&json!({"begin": case_id}));
+        self.event(&json!({"begin": case_id, "t": now_ms()}));
         self.flush();
         WATCH_START_MS.store(now_ms(), std::sync::atomic::Ordering::SeqCst);
         true
     }
     pub fn end(&mut self, case_id: &str) {
         WATCH_START_MS.store(0, std::sync::atomic::Ordering::SeqCst);
-        self.event(&json!({"end": case_id}));
+        self.event(&json!({"end": case_id, "t": now_ms()}));
     }
     pub fn flush(&mut self) {
         if let Some(l) = self.log.as_mut() {
